@@ -82,6 +82,9 @@ func natsdrainHarness(rc *RunCtx) {
 	stopAfter := tp.Intn("cfg", nreq+1) // Stop is invoked once this many requests were handed to the server's connection
 	durChoices := []time.Duration{0, 0, time.Millisecond, 5 * time.Millisecond, 20 * time.Millisecond, 50 * time.Millisecond}
 	spread := tp.Intn("cfg", 3) // 0: burst at once, 1: 1ms apart, 2: random gaps
+	nSubj := 1 + tp.Biased("cfg", 3)
+	subjects := []string{"svc", "svc.b", "other"}[:nSubj]
+	rc.Sample["subjects"] = nSubj
 	rc.Sample["workers"] = workers
 	rc.Sample["queue_len"] = qlen
 	rc.Sample["requests"] = nreq
@@ -101,7 +104,11 @@ func natsdrainHarness(rc *RunCtx) {
 	var srvConnID int
 
 	b.OnDeliver = func(c *BrokerConn, subject string, data []byte) {
-		if subject != "svc" {
+		isSubj := false
+		for _, sj := range subjects {
+			isSubj = isSubj || sj == subject
+		}
+		if !isSubj {
 			return
 		}
 		f, err := DecodeFrame(data)
@@ -139,7 +146,7 @@ func natsdrainHarness(rc *RunCtx) {
 		r := h.reqs[id]
 		r.routedStep, r.routedAt = s.Step, s.Now()
 		frame := EncodeFrame(map[string]string{"_opid": strconv.Itoa(100000 + id), "_cid": "c", "id": strconv.Itoa(id), "_timeout": "5000"}, []byte("req"))
-		b.Route("svc", fmt.Sprintf("_INBOX.peer.%d", id), nil, frame)
+		b.Route(subjects[id%len(subjects)], fmt.Sprintf("_INBOX.peer.%d", id), nil, frame)
 	}
 
 	s.GoRoot("main", "main", func() {
@@ -152,7 +159,7 @@ func natsdrainHarness(rc *RunCtx) {
 		srvConnID = len(b.conns)
 		_ = srvConnID
 		pf := frugal.NewFProtocolFactory(thrift.NewTBinaryProtocolFactoryConf(nil))
-		srv := frugal.NewFNatsServerBuilder(nc, &drainProc{h: h}, pf, []string{"svc"}).
+		srv := frugal.NewFNatsServerBuilder(nc, &drainProc{h: h}, pf, subjects).
 			WithWorkerCount(uint(workers)).WithQueueLength(uint(qlen)).
 			WithRequestReceivedEventHandler(func(map[interface{}]interface{}) {}).
 			WithRequestStartedEventHandler(func(map[interface{}]interface{}) {}).
@@ -167,12 +174,12 @@ func natsdrainHarness(rc *RunCtx) {
 		})
 		// wait until the subscription exists at the broker before the peer starts
 		site := simrt.HarnessSite("drain.wait-sub")
-		for i := 0; b.SubCount("svc") == 0 && i < 1000; i++ {
+		for i := 0; b.SubCount(subjects[len(subjects)-1]) == 0 && i < 6000; i++ {
 			simrt.Block(site)
-			time.Sleep(time.Millisecond)
+			time.Sleep(10 * time.Millisecond)
 			simrt.Yield(site)
 		}
-		if b.SubCount("svc") == 0 {
+		if b.SubCount(subjects[len(subjects)-1]) == 0 {
 			rc.Violate("INFRA", "no-subscription", "nats", "")
 			finished = true
 			return
@@ -207,7 +214,7 @@ func natsdrainHarness(rc *RunCtx) {
 		}
 		stopErr = srv.Stop()
 		stopReturnedStep = s.Step
-		for i := 0; i < nafter; i++ {
+		for i := 0; i < nafter*len(subjects); i++ {
 			id := 1000 + i
 			h.reqs[id] = &drainReq{id: id}
 			inject(id)
